@@ -116,6 +116,41 @@ class Schema(Obligation):
         return out
 
 
+class SchemaZero(Schema):
+    """the same call with a point that is EXACTLY 0.0 next to a symbolic one (origin guards, `r[r == 0] = ...', in-place
+    clamps): the caller's array is not modified and the position field returns what was passed.  Input arrays are SymArr
+    (comparisons give boolean masks, masked assignment runs)."""
+
+    def __init__(self, *a, **k):
+        Schema.__init__(self, *a, **k)
+        self.id = self.id.rsplit('.N', 1)[0] + '.zero'
+        self.bounds = 'two points, the first exactly 0.0, the second symbolic; symbolic parameters and time'
+        self.independent = False
+        self.allow_vacuous = True       # a solver that raises for a point at the origin has nothing to return
+
+    def _points(self, mk):
+        H.SYM_INPUT_ARRAYS = True
+        if self.dim == 1:
+            a = H.arr([mk('r1') * 0 + mk('r1'), mk('r1')])
+            a[0] = 0.0
+            return a
+        rows = [[mk('r%d_%d' % (i, j)) for j in range(self.dim)] for i in range(2)]
+        m = H.mat(rows)
+        if isinstance(m, np.ndarray) and m.dtype == object:
+            from symx.engine import SymArr
+            m = m.view(SymArr)
+        for j in range(self.dim):
+            m[0, j] = 0.0
+        return m
+
+    def claims(self, cx):
+        cx.true('input array not modified (a point exactly at 0.0 in the request)', cx['_mutated'] == 0)
+        for c in range(len(self.coord_names)):
+            for i in range(self.npts):
+                cx.eq('position field %d, record %d is the point that was passed (a point exactly at 0.0 in the request)' % (c, i),
+                      cx['pos%d_%d' % (c, i)], cx['in%d_%d' % (c, i)])
+
+
 def _same(a, b):
     if isinstance(a, SymReal) and isinstance(b, SymReal):
         return a.t is b.t
@@ -236,6 +271,8 @@ def obligations(tier):
                 if g:
                     attrs['geometry'] = g
                 return H.new_solver(cc, attrs)
+            if n == 2:
+                obs.append(SchemaZero(name.lower(), [cm], mkcog, 2, dom=pos_r, functions=[cc._run]))     # cheap: all 21, both tiers
             if tier == 'quick' and name not in ('Cog1', 'Cog8', 'Cog13', 'Cog19', 'Cog21'):
                 continue
             obs.append(Schema(name.lower(), [cm], mkcog, n, dom=pos_r, functions=[cc._run]))
@@ -291,6 +328,16 @@ def obligations(tier):
                    functions=[sd.SteadyDetonationReactionZone._run])
         o.call = lambda s, pts, t: s._run(pts, t, NP=3)
         obs.append(o)
+    # origin-guard variant (a point exactly at 0.0) for the closed-form 1-D solvers
+    for o in list(obs):
+        if type(o) is Schema and o.npts == 2 and o.dim == 1 and o.key.split('.')[0].startswith('noh'):
+            z = SchemaZero.__new__(SchemaZero)
+            z.__dict__.update(o.__dict__)
+            z.id = o.id.rsplit('.N', 1)[0] + '.zero'
+            z.bounds = 'two points, the first exactly 0.0, the second symbolic; symbolic parameters and time'
+            z.independent = False
+            z.allow_vacuous = True
+            obs.append(z)
     classes = _ctor_classes()
     if tier == 'quick':
         keep = ('noh.Noh', 'noh.PlanarNoh', 'noh.SphericalNoh', 'sedov.Sedov', 'sedov.PlanarSedov', 'cog.Cog1', 'cog.PlanarCog1', 'cog.Cog8',
